@@ -124,6 +124,98 @@ def prologue_check(d, tier, coq, build):
     return []
 
 
+_EXT_PRELUDE = """From Oras Require Import Base.Prelude Generated.GC01 Model.CopySpec Model.CopyTop Model.CopyOpt Model.CopyCancel Model.CopyExt.
+Local Open Scope nat_scope.
+Definition mkG (n : nat) (succs : list (list nat)) (fl ism : list bool) (dk : list nat) : graph :=
+  mkGraph n (fun x => nth x succs []) (fun x => nth x fl false) (fun x => nth x ism false)
+          (fun x => if Nat.ltb x n then nth x dk 0 else 1000000 + x).
+Definition cs_of (b : list bool) : cbset :=
+  fun k => match k with CPre => nth 0 b true | CPost => nth 1 b true | CSkip => nth 2 b true
+                      | CMounted => nth 3 b true | CMountFrom => nth 4 b true end.
+Definition xeval (g : graph) (c : cfg) (tgt : node) (d0 : list node) (tr : list event) :=
+  match xaccepts g c tgt d0 tr with
+  | None => None
+  | Some st => Some (returned st, tag st, present_nodes g (dst st))
+  end.
+Definition xceval (cs : cbset) (g : graph) (c : cfg) (tgt : node) (d0 : list node) (tr : list cevent) :=
+  match xcaccepts_opt cs g c tgt d0 tr with
+  | None => None
+  | Some (s, _) => Some (returned (cs_st s), tag (cs_st s), present_nodes g (dst (cs_st s)))
+  end.
+"""
+
+
+def ext_check(d, tier, coq, build):
+    """every recorded ExtendedCopy run -- any option set, cancelled or not, successful or not -- with the tag events where the
+    harness saw them is a run of Model/CopyExt.xcaccepts_opt with the result the acceptor computed (+ the reference on the
+    node exactly on success); those with all callbacks set and no cancellation also of the plain xaccepts"""
+    want = 400 if tier == "thorough" else 120
+    outs = {}
+    with open(os.path.join(d, "model.txt")) as f:
+        for l in f:
+            i, _, o = l.rstrip("\n").partition(" ")
+            outs[i] = o
+    goals = []
+    nplain = 0
+    with open(os.path.join(d, "cases.txt")) as f:
+        for l in f:
+            if len(l) > 4000:
+                continue
+            i, _, c = l.rstrip("\n").partition(" ")
+            p = c.split(" ")
+            xt = [x for x in p if x.startswith("xt=")]
+            xn = [x for x in p if x.startswith("xn=")]
+            if not xt or len(p) < 9 or not outs.get(i, "").startswith("ACC") or p[7] == "-":
+                continue
+            n, k, mode, root, c0, nodes, d0, trace = p[0], p[1], p[2], p[3], p[4], p[5], p[6], p[7]
+            node = xt[0][3:]
+            bits = mode.partition("/")[2] or "11111"
+            toks = trace.split(",")
+            if xn:
+                toks = toks[:-1] + ["TB." + node, "TE." + node, toks[-1]]
+            evs = ["Cancel" if t == "CX" else _event(t) for t in toks]
+            if any(e is None for e in evs):
+                continue
+            succs, fl, ism, dk = [], [], [], []
+            for sp in nodes.split(";"):
+                a, b2, c2 = sp.split("/")
+                fl.append(_b("f" in a)); ism.append(_b("m" in a)); dk.append(b2); succs.append(_nats(c2))
+            roots = root.split("+")
+            kv = dict(x.split("=", 1) for x in outs[i].split(" ")[1:])
+            if kv["tag"] != "-" or (kv["ret"] == "1") != bool(xn):
+                return ["ExtendedCopy check: case %s: success without the final Tag of the node, or a Tag without success" % i]
+            ret = {"1": "Some true", "0": "Some false", "-": "None"}[kv["ret"]]
+            tag = "Some %s" % node if xn else "None"
+            g = "(mkG %s [%s] [%s] [%s] [%s])" % (n, "; ".join(succs), "; ".join(fl), "; ".join(ism), "; ".join(dk))
+            cf = "(mkCfg (eff_K defaultConcurrency (%s)%%Z) MGraph %s false true %s %s)" % (k, roots[0], _nats(c0), _nats(",".join(roots[1:])))
+            cs = "(cs_of [%s])" % "; ".join(_b(ch == "1") for ch in bits)
+            exp = "Some (%s, %s, %s)" % (ret, tag, _nats(kv["dst"]))
+            goals.append((i, "xceval %s %s %s %s %s [%s] = %s" % (cs, g, cf, node, _nats(d0),
+                                                              "; ".join(e if e == "Cancel" else "Ev (%s)" % e for e in evs), exp)))
+            if bits == "11111" and "Cancel" not in evs:
+                nplain += 1
+                goals.append((i, "xeval %s %s %s %s [%s] = %s" % (g, cf, node, _nats(d0), "; ".join(evs), exp)))
+            if len(goals) >= want:
+                break
+    vdir = os.path.join(build, "vm")
+    os.makedirs(vdir, exist_ok=True)
+    vf = os.path.join(vdir, "GC01_ext.v")
+    with open(vf, "w") as f:
+        f.write(_EXT_PRELUDE)
+        for i, g in goals:
+            f.write("\n(* %s *)\nGoal %s.\nProof. vm_compute. reflexivity. Qed.\n" % (i, g))
+    p = subprocess.run(["coqc", "-R", coq, "Oras", "-w", "-notation-overridden", vf], cwd=vdir, timeout=900,
+                       stdout=subprocess.PIPE, stderr=subprocess.STDOUT, text=True)
+    with open(os.path.join(d, "ext_check.txt"), "w") as f:
+        f.write("%d goals (%d also through the plain xaccepts) rc=%d\n%s" % (len(goals), nplain, p.returncode, p.stdout[-3000:]))
+    if p.returncode != 0:
+        return ["ExtendedCopy check: a recorded ExtendedCopy run (with its final Tag) is not a run of Model/CopyExt.xcaccepts_opt / "
+                "xaccepts with the expected result: %s" % p.stdout[-600:]]
+    if len(goals) < 10 or nplain < 3:
+        return ["ExtendedCopy check: only %d goals (%d plain)" % (len(goals), nplain)]
+    return []
+
+
 def refs_check(d, tier, coq, build):
     """every reference string the destination was asked to set during a Copy is CopyTop.eff_ref srcRef dstRef"""
     want = 1500 if tier == "thorough" else 300
@@ -316,6 +408,6 @@ def vm_sample(gen, runfn="run_opt", imports=""):
         if len(goals) < min(want, 20):
             return ["in-Coq re-evaluation: only %d cases could be sampled" % len(goals)]
         if gen == "GC01":
-            return links_check(d, tier, coq, build) + prologue_check(d, tier, coq, build) + refs_check(d, tier, coq, build)
+            return links_check(d, tier, coq, build) + prologue_check(d, tier, coq, build) + refs_check(d, tier, coq, build) + ext_check(d, tier, coq, build)
         return []
     return hook
